@@ -97,6 +97,28 @@ impl ArTag11 {
 
 // ---------------------------------------------------------------- catalogue
 
+/// In self-check mode inputs that make integer arithmetic overflow are left to the probe below.
+pub static NO_OVERFLOW: std::sync::atomic::AtomicBool = std::sync::atomic::AtomicBool::new(false);
+
+/// Known defect probes (each yields one self-checking line with a finding key).
+pub fn probes() -> Vec<String> {
+    let mut out = vec![];
+    // integer AddConst/MultiplyConst/Add use `+`/`*`, which panic on overflow (overflow checks are on
+    // in the crate's release profile)
+    let r = quiet(|| {
+        let (f, r) = feeder::<u8>(0);
+        let (mut b, _o) = AddConst::new(r, 250u8);
+        let mut f = f;
+        f.push(&[10], &[]);
+        let _ = b.work();
+    });
+    out.push(format!(
+        "!probe int-overflow AddConst<u8>(250) on sample 10\t{}\tint-overflow-panic",
+        if r.is_ok() { "pass".to_string() } else { "FAIL work() panicked (attempt to add with overflow)".to_string() }
+    ));
+    out
+}
+
 pub struct Built {
     pub name: String,
     pub params: Vec<u64>,
@@ -153,7 +175,8 @@ pub fn build(name: &str, rng: &mut Rng) -> Built {
             if rng.chance(1, 2) {
                 let v = rng.below(40) as u64;
                 params = vec![8, v];
-                alphabets = vec![(if rng.chance(1, 6) { 256 } else { 200 }, vec![])];
+                let wide = rng.chance(1, 6) && !NO_OVERFLOW.load(std::sync::atomic::Ordering::SeqCst);
+                alphabets = vec![(if wide { 256 } else { 200 }, vec![])];
                 rig1::<u8, u8>(rng, |r| bx!(AddConst::new(r, v as u8)))
             } else {
                 let v = rng.below(1000) as u64;
@@ -279,9 +302,322 @@ pub fn build(name: &str, rng: &mut Rng) -> Built {
                 Rig { block: Box::new(b), ins: vec![fa, fb], outs: vec![drainer(x), drainer(y)] }
             }
         }
+        _ => return build_hand(name, rng),
+    };
+    Built { name: name.to_string(), params, rig, alphabets }
+}
+
+pub const HAND_NAMES: &[&str] = &[
+    "skip", "delay", "resampler", "rtlsdr", "fir", "fir_c", "fftfilter", "fftfilter_f", "hilbert", "fftstream",
+    "auenc", "zerocross", "symsync", "hdlc", "il2p", "quaddemod", "fastfm", "iir1", "s2pdu", "v2s",
+    "totext", "cma", "midpointer", "wpcr", "nullsink", "vectorsink",
+];
+
+/// small integer-valued floats: all sums in the filters are exact
+fn int_f32_alpha() -> (u64, Vec<u64>) {
+    (0, (-8i32..=8).map(|v| (v as f32).to_bits() as u64).collect())
+}
+fn wave_alpha() -> (u64, Vec<u64>) {
+    (0, [-1.0f32, -0.7, -0.3, -0.1, 0.1, 0.3, 0.7, 1.0, 0.0, 0.5, -0.5].iter().map(|v| v.to_bits() as u64).collect())
+}
+fn complex_alpha(rng: &mut Rng) -> (u64, Vec<u64>) {
+    let mut tbl = vec![];
+    for _ in 0..16 {
+        let re = (rng.range(0, 8) as i32 - 4) as f32;
+        let im = (rng.range(0, 8) as i32 - 4) as f32;
+        tbl.push(re.to_bits() as u64 | ((im.to_bits() as u64) << 32));
+    }
+    (0, tbl)
+}
+
+fn build_hand(name: &str, rng: &mut Rng) -> Built {
+    let mut params: Vec<u64> = vec![];
+    let alphabets: Vec<(u64, Vec<u64>)>;
+    let rig = match name {
+        "skip" => {
+            let k = *rng.pick(&[0usize, 1, 2, 5, 100, 1023, 1024, 1025, 3000]);
+            params = vec![k as u64];
+            alphabets = vec![(1 << 32, vec![])];
+            rig1::<u32, u32>(rng, |r| bx!(Skip::new(r, k)))
+        }
+        "delay" => {
+            let k = *rng.pick(&[0usize, 1, 2, 5, 100, 1023, 1024, 1025, 3000]);
+            params = vec![k as u64];
+            alphabets = vec![(1 << 32, vec![])];
+            rig1::<u32, u32>(rng, |r| bx!(Delay::new(r, k)))
+        }
+        "resampler" => {
+            let interp = rng.range(1, 12);
+            let deci = rng.range(1, 12);
+            params = vec![interp as u64, deci as u64];
+            alphabets = vec![(1 << 32, vec![])];
+            rig1::<u32, u32>(rng, |r| bx!(RationalResampler::new(r, interp, deci).unwrap()))
+        }
+        "rtlsdr" => {
+            alphabets = vec![(256, vec![])];
+            rig1::<u8, Complex>(rng, |r| bx!(RtlSdrDecode::new(r)))
+        }
+        "fir" => {
+            let ntaps = rng.range(1, 40);
+            let deci = rng.range(1, 8);
+            let taps: Vec<f32> = (0..ntaps).map(|_| (rng.range(0, 6) as i32 - 3) as f32).collect();
+            params = vec![deci as u64];
+            params.extend(taps.iter().map(|t| t.to_bits() as u64));
+            alphabets = vec![int_f32_alpha()];
+            rig1::<f32, f32>(rng, |r| bx!(FirFilterBuilder::new(&taps).deci(deci).build(r)))
+        }
+        "fir_c" => {
+            let ntaps = rng.range(1, 20);
+            let deci = rng.range(1, 4);
+            let taps: Vec<Complex> = (0..ntaps)
+                .map(|_| Complex::new((rng.range(0, 4) as i32 - 2) as f32, (rng.range(0, 4) as i32 - 2) as f32))
+                .collect();
+            params = vec![deci as u64, ntaps as u64];
+            alphabets = vec![complex_alpha(rng)];
+            rig1::<Complex, Complex>(rng, |r| bx!(FirFilterBuilder::new(&taps).deci(deci).build(r)))
+        }
+        "fftfilter" => {
+            let ntaps = rng.range(1, 30);
+            let taps: Vec<Complex> = (0..ntaps)
+                .map(|_| Complex::new((rng.range(0, 4) as i32 - 2) as f32, (rng.range(0, 4) as i32 - 2) as f32))
+                .collect();
+            params = vec![ntaps as u64];
+            alphabets = vec![complex_alpha(rng)];
+            rig1::<Complex, Complex>(rng, |r| bx!(FftFilter::new(r, &taps)))
+        }
+        "fftfilter_f" => {
+            let ntaps = rng.range(1, 30);
+            let taps: Vec<f32> = (0..ntaps).map(|_| (rng.range(0, 6) as i32 - 3) as f32).collect();
+            params = vec![ntaps as u64];
+            alphabets = vec![int_f32_alpha()];
+            rig1::<f32, f32>(rng, |r| bx!(FftFilterFloat::new(r, &taps)))
+        }
+        "hilbert" => {
+            let ntaps = 2 * rng.range(1, 20) + 1;
+            params = vec![ntaps as u64];
+            alphabets = vec![int_f32_alpha()];
+            rig1::<f32, Complex>(rng, |r| bx!(Hilbert::new(r, ntaps, &rustradio::window::WindowType::Hamming)))
+        }
+        "fftstream" => {
+            let size = *rng.pick(&[1usize, 2, 4, 8, 16, 64, 100, 512]);
+            params = vec![size as u64];
+            alphabets = vec![complex_alpha(rng)];
+            rig1::<Complex, Complex>(rng, |r| bx!(FftStream::new(r, size)))
+        }
+        "auenc" => {
+            alphabets = vec![wave_alpha()];
+            rig1::<f32, u8>(rng, |r| bx!(AuEncode::new(r, rustradio::au::Encoding::Pcm16, 48000, 1)))
+        }
+        "audec" => {
+            // valid header as a table-free byte stream is built by the caller: here raw bytes after a header
+            alphabets = vec![(256, vec![])];
+            rig1::<u8, f32>(rng, |r| bx!(AuDecode::new(r, 48000)))
+        }
+        "zerocross" => {
+            let sps = *rng.pick(&[2.5f32, 4.0, 5.2083335, 10.0]);
+            params = vec![sps.to_bits() as u64];
+            alphabets = vec![wave_alpha()];
+            rig1::<f32, f32>(rng, |r| bx!(ZeroCrossing::new(r, sps, 0.1)))
+        }
+        "symsync" => {
+            let sps = *rng.pick(&[2.5f32, 4.0, 5.2083335, 10.0]);
+            params = vec![sps.to_bits() as u64];
+            alphabets = vec![wave_alpha()];
+            rig1::<f32, f32>(rng, |r| {
+                let filter = rustradio::iir_filter::IirFilter::new(&[0.5f32, 0.5]);
+                bx!(SymbolSync::new(
+                    r,
+                    sps,
+                    0.5,
+                    Box::new(rustradio::symbol_sync::TedZeroCrossing::new()),
+                    Box::new(filter)
+                ))
+            })
+        }
+        "hdlc" => {
+            let min = *rng.pick(&[2usize, 3, 10]);
+            let max = *rng.pick(&[10usize, 50, 1500]);
+            params = vec![min as u64, max as u64];
+            alphabets = vec![(2, vec![])];
+            let (fi, r) = feeder::<u8>(rng.below(5000));
+            let (b, o) = HdlcDeframer::new(r, min, max);
+            Rig { block: Box::new(b), ins: vec![fi], outs: vec![pkt_drainer(o)] }
+        }
+        "il2p" => {
+            alphabets = vec![(2, vec![])];
+            let (fi, r) = feeder::<u8>(rng.below(5000));
+            let (b, o) = Il2pDeframer::new(r);
+            Rig { block: Box::new(b), ins: vec![fi], outs: vec![pkt_drainer(o)] }
+        }
+        "quaddemod" => {
+            alphabets = vec![complex_alpha(rng)];
+            rig1::<Complex, f32>(rng, |r| bx!(QuadratureDemod::new(r, 1.5)))
+        }
+        "fastfm" => {
+            alphabets = vec![complex_alpha(rng)];
+            rig1::<Complex, f32>(rng, |r| bx!(FastFM::new(r)))
+        }
+        "iir1" => {
+            alphabets = vec![wave_alpha()];
+            rig1::<f32, f32>(rng, |r| bx!(SinglePoleIirFilter::new(r, 0.25).unwrap()))
+        }
+        "s2pdu" => {
+            let max = *rng.pick(&[5usize, 50, 5000]);
+            let tail = *rng.pick(&[0usize, 1, 3, 20]);
+            params = vec![max as u64, tail as u64];
+            alphabets = vec![(1 << 32, vec![])];
+            let (fi, r) = feeder::<u32>(rng.below(5000));
+            let (b, o) = StreamToPdu::new(r, "k0", max, tail);
+            Rig { block: Box::new(b), ins: vec![fi], outs: vec![pkt_drainer(o)] }
+        }
+        "v2s" => {
+            alphabets = vec![(256, vec![])];
+            let (fi, r) = pkt_feeder::<u8>();
+            let (b, o) = VecToStream::new(r);
+            Rig { block: Box::new(b), ins: vec![fi], outs: vec![drainer(o)] }
+        }
+        "totext" => {
+            let n = rng.range(1, 3);
+            alphabets = (0..n).map(|_| (1000, vec![])).collect();
+            let mut fs: Vec<Box<dyn InPort>> = vec![];
+            let mut rs = vec![];
+            for _ in 0..n {
+                let (f, r) = feeder::<u32>(rng.below(5000));
+                fs.push(f);
+                rs.push(r);
+            }
+            let (b, o) = ToText::new(rs);
+            Rig { block: Box::new(b), ins: fs, outs: vec![drainer(o)] }
+        }
+        "cma" => {
+            alphabets = vec![complex_alpha(rng)];
+            rig1::<Complex, Complex>(rng, |r| bx!(CmaEqualizer::new(4, 1.0, 0.001, r)))
+        }
+        "midpointer" => {
+            alphabets = vec![wave_alpha()];
+            let (fi, r) = pkt_feeder::<f32>();
+            let (b, o) = Midpointer::new(r);
+            Rig { block: Box::new(b), ins: vec![fi], outs: vec![pkt_drainer(o)] }
+        }
+        "wpcr" => {
+            alphabets = vec![wave_alpha()];
+            let (fi, r) = pkt_feeder::<f32>();
+            let (b, o) = WpcrBuilder::new(r).samp_rate(50000.0).build();
+            Rig { block: Box::new(b), ins: vec![fi], outs: vec![pkt_drainer(o)] }
+        }
+        "nullsink" => {
+            alphabets = vec![(256, vec![])];
+            let (fi, r) = feeder::<u8>(rng.below(5000));
+            Rig { block: Box::new(NullSink::new(r)), ins: vec![fi], outs: vec![] }
+        }
+        "vectorsink" => {
+            alphabets = vec![(256, vec![])];
+            let (fi, r) = feeder::<u8>(rng.below(5000));
+            Rig { block: Box::new(VectorSink::new(r, 1_000_000)), ins: vec![fi], outs: vec![] }
+        }
         _ => panic!("unknown block {name}"),
     };
     Built { name: name.to_string(), params, rig, alphabets }
+}
+
+fn gen_inspecs(built: &Built, rng: &mut Rng, heavy_tags: bool) -> Vec<InSpec> {
+    let in_cap = built.rig.ins.iter().map(|i| i.cap()).filter(|c| *c != PKT_CAP).max().unwrap_or(1024);
+    built
+        .alphabets
+        .iter()
+        .enumerate()
+        .map(|(j, (m, tbl))| {
+            let len = match rng.below(6) {
+                0 => rng.range(0, 5),
+                1 => rng.range(0, 200),
+                2 => in_cap + rng.range(0, 40),
+                3 => rng.range(0, 3 * in_cap),
+                _ => rng.range(0, 700),
+            };
+            let mut pkts = vec![];
+            if built.rig.ins[j].cap() == PKT_CAP {
+                let mut left = len;
+                while left > 0 {
+                    let k = match rng.below(5) {
+                        0 => 0,
+                        1 => rng.range(1, 8),
+                        _ => rng.range(1, 300),
+                    }
+                    .min(left);
+                    pkts.push(k);
+                    left -= k;
+                }
+            }
+            let tags = if pkts.is_empty() { gen_tags(rng, len, heavy_tags) } else { vec![] };
+            InSpec { pkts, len, seed: rng.next() >> 8, m: *m, tbl: tbl.clone(), tags }
+        })
+        .collect()
+}
+
+/// Model-free checks on the real block: (1) chunking independence — an adversarial
+/// drip-feed run and a greedy run of the same block on the same input deliver the same
+/// samples/packets (C08) and tags (C12); (2) the C09 acceptor on the adversarial trace.
+pub fn selfcheck(name: &str, rng: &mut Rng, steps: usize, heavy_tags: bool) -> Vec<String> {
+    let mut rng_b = rng.clone();
+    let built_a = build(name, rng);
+    let built_b = build(name, &mut rng_b);
+    let ins = gen_inspecs(&built_a, rng, heavy_tags);
+    let nin = built_a.rig.ins.len();
+    let nout = built_a.rig.outs.len();
+    let out_cap = built_a.rig.outs.iter().map(|o| o.cap()).min().unwrap_or(4096);
+    let lens: Vec<usize> = ins.iter().map(|i| i.len).collect();
+    let acts_a = gen_schedule_opt(rng, nin, nout, &lens, out_cap.min(4096), steps, false);
+    let acts_b = greedy_schedule(nin, nout, &lens);
+    let req = request(&built_a.name, &built_a.params, &built_a.rig, &ins, &acts_a);
+    let a = run_case_full(built_a.rig, &ins, &acts_a, true);
+    let b = run_case_full(built_b.rig, &ins, &acts_b, true);
+    let mut out = Vec::new();
+    let short = req.split(" ; S").next().unwrap_or("").to_string();
+    let sched: String = acts_a.iter().map(show_act).collect::<Vec<_>>().join(" ");
+    let id = format!("{short} ; S {sched}");
+    // C08: samples/packets identical (one a prefix of the other only if something was left undelivered)
+    let mut verdict = "pass".to_string();
+    let mut key = "";
+    if a.panicked || b.panicked {
+        verdict = format!("FAIL panic (adversarial={}, greedy={})", a.panicked, b.panicked);
+        key = "panic";
+    } else {
+        for j in 0..nout {
+            if a.collected[j] != b.collected[j] {
+                let la = a.collected[j].len();
+                let lb = b.collected[j].len();
+                let first = a.collected[j].iter().zip(&b.collected[j]).position(|(x, y)| x != y);
+                verdict = format!("FAIL output {j}: drip-fed run delivered {la} items, greedy run {lb}, first difference at {first:?}");
+                key = "chunking";
+                break;
+            }
+        }
+    }
+    out.push(format!("!chunk {id}\t{verdict}\t{}", if key.is_empty() { String::new() } else { format!("{name}-{key}") }));
+    // C12: tags identical
+    let mut tverdict = "pass".to_string();
+    if !a.panicked && !b.panicked {
+        for j in 0..nout {
+            let mut ta = a.ctags[j].clone();
+            let mut tb = b.ctags[j].clone();
+            ta.sort();
+            tb.sort();
+            if ta != tb {
+                let only_a: Vec<_> = ta.iter().filter(|t| !tb.contains(t)).take(3).collect();
+                let only_b: Vec<_> = tb.iter().filter(|t| !ta.contains(t)).take(3).collect();
+                tverdict = format!("FAIL output {j}: tags differ: only drip-fed {only_a:?}, only greedy {only_b:?}");
+                break;
+            }
+        }
+    }
+    out.push(format!("!tags {id}\t{tverdict}\t{}", if tverdict == "pass" { String::new() } else { format!("{name}-tags") }));
+    // C09
+    let c9 = match c09_accept(&a, 4) {
+        Ok(()) => "pass".to_string(),
+        Err(e) => format!("FAIL {e}"),
+    };
+    out.push(format!("!c09 {id}\t{c9}\t{}", if c9 == "pass" { String::new() } else { format!("{name}-verdict") }));
+    out
 }
 
 fn arity_rig(rng: &mut Rng, nin: usize, nout: usize) -> Rig {
@@ -326,7 +662,7 @@ pub fn case(name: &str, rng: &mut Rng, steps: usize, heavy_tags: bool) -> String
                 3 => rng.range(0, 3 * in_cap),
                 _ => rng.range(0, 700),
             };
-            InSpec { len, seed: rng.next() >> 8, m: *m, tbl: tbl.clone(), tags: gen_tags(rng, len, heavy_tags) }
+            InSpec { pkts: vec![], len, seed: rng.next() >> 8, m: *m, tbl: tbl.clone(), tags: gen_tags(rng, len, heavy_tags) }
         })
         .collect();
     let lens: Vec<usize> = ins.iter().map(|i| i.len).collect();
@@ -343,13 +679,23 @@ pub fn run(args: &[String]) -> Vec<String> {
     let heavy = arg_usize(args, "--tag-heavy", 0) != 0;
     let set = arg(args, "--set").unwrap_or("sync".into());
     let only_block = arg(args, "--block");
+    let mut out = Vec::new();
     let names: Vec<&str> = match set.as_str() {
+        "modelled" => SYNC_NAMES.iter().chain(ARITY_NAMES.iter()).chain(["skip", "delay", "resampler", "rtlsdr"].iter()).copied().collect(),
         "sync" => SYNC_NAMES.to_vec(),
         "arity" => ARITY_NAMES.to_vec(),
+        "hand" => HAND_NAMES.to_vec(),
+        "every" => SYNC_NAMES.iter().chain(ARITY_NAMES.iter()).chain(HAND_NAMES.iter()).copied().collect(),
         _ => SYNC_NAMES.iter().chain(ARITY_NAMES.iter()).copied().collect(),
     };
+    let mode = arg(args, "--mode").unwrap_or("model".into());
+    if mode == "self" {
+        NO_OVERFLOW.store(true, std::sync::atomic::Ordering::SeqCst);
+        if arg_usize(args, "--probes", 0) != 0 {
+            out.extend(probes());
+        }
+    }
     let mut rng = Rng::new(seed);
-    let mut out = Vec::new();
     // every stream a block creates for its outputs is one page
     rustradio::verif::set_stream_size(4096);
     for i in 0..cases {
@@ -358,7 +704,11 @@ pub fn run(args: &[String]) -> Vec<String> {
             Some(b) => b.as_str(),
             None => names[i % names.len()],
         };
-        out.push(case(name, &mut r, steps, heavy));
+        if mode == "self" {
+            out.extend(selfcheck(name, &mut r, steps, heavy));
+        } else {
+            out.push(case(name, &mut r, steps, heavy));
+        }
     }
     out
 }
